@@ -752,12 +752,19 @@ cdef class QobjEvo:
 
     def tidyup(self, atol=1e-12):
         """Removes small elements from quantum object."""
+        # Elements (and the Qobj they hold) can be shared with other QobjEvo
+        # or be the operand of a previous addition: tidy up copies.
+        cleaned_elements = []
         for element in self.elements:
             if type(element) is _ConstantElement:
-                element = _ConstantElement(element.qobj(0).tidyup(atol))
+                element = _ConstantElement(
+                    element.qobj(0).copy().tidyup(atol)
+                )
             elif type(element) is _EvoElement:
-                element = _EvoElement(element.qobj(0).tidyup(atol),
+                element = _EvoElement(element.qobj(0).copy().tidyup(atol),
                                       element._coefficient)
+            cleaned_elements.append(element)
+        self.elements = cleaned_elements
         return self
 
     def linear_map(self, op_mapping, *, _skip_check=False):
